@@ -236,7 +236,13 @@ class PyCodegen(Stringifier):
         end = self.visit(o.bounds.stop, **kwargs)
         if o.bounds.step:
             incr = self.visit(o.bounds.step, **kwargs)
-            cntrl = f'range({start}, {end} + {incr}, {incr})'
+            # The Fortran upper bound is inclusive: extend it by one in the direction of the stride
+            # (extending it by the stride itself adds an iteration whenever the stride is not +-1)
+            try:
+                ext = '1' if int(incr) > 0 else '-1'
+            except ValueError:
+                ext = f'(1 if {incr} > 0 else -1)'
+            cntrl = f'range({start}, {end} + {ext}, {incr})'
         else:
             cntrl = f'range({start}, {end} + 1)'
         header = self.format_line('for ', var, ' in ', cntrl, ':')
